@@ -18,6 +18,10 @@ type stillParts struct {
 	HasAlph   bool
 	Lossless  bool
 	W, H      int
+	// RawToWitness: libwebp is given the bare bitstream instead of the RIFF file, so that the pad
+	// byte behind an odd-sized chunk is not visible to it (it reads the pad byte as stream data,
+	// which can turn a short stream into an accepted one)
+	RawToWitness bool
 }
 
 // diffOutcome is the result of comparing the package's decoder with the witnesses
@@ -78,6 +82,10 @@ func diffStill(p *stillParts) *diffOutcome {
 	o := &diffOutcome{}
 	o.RepoImg, o.RepoErr = decodeBytes(p.File)
 	lib := cref.Available()
+	wf := p.File
+	if p.RawToWitness && !p.HasAlph {
+		wf = p.Bitstream
+	}
 	switch {
 	case p.Lossless:
 		var w1 []byte
@@ -85,7 +93,7 @@ func diffStill(p *stillParts) *diffOutcome {
 		if lib {
 			o.WitnessTotal++
 			var ww, hh int
-			w1, ww, hh, ok1 = cref.DecodeRGBA(p.File)
+			w1, ww, hh, ok1 = cref.DecodeRGBA(wf)
 			if ok1 && (ww != p.W || hh != p.H) {
 				o.WitnessNote = fmt.Sprintf("libwebp size %dx%d", ww, hh)
 			}
@@ -138,7 +146,7 @@ func diffStill(p *stillParts) *diffOutcome {
 		ok1 := false
 		if lib {
 			o.WitnessTotal++
-			y1, ok1 = cref.DecodeYUV(p.File)
+			y1, ok1 = cref.DecodeYUV(wf)
 			if ok1 {
 				o.WitnessAccept++
 			}
